@@ -81,7 +81,8 @@ def fa_canon(x):
     e = F.extract(x, F.Codes([]), yc)
     c = F.canon(e)
     # language-level canonical form is too costly here: structure with value-named states
-    return (sorted(str(s.value) for s in x.states), sorted(str(s.value) for s in x.start_states),
+    return (sorted(str(s.value) for s in x.states), sorted(str(s.value) for s in x.symbols),
+            sorted(str(s.value) for s in x.start_states),
             sorted(str(s.value) for s in x.final_states),
             sorted((str(a.value), str(getattr(b, "value", b)), str(c2.value)) for a, b, c2 in x._transition_function.get_edges()))  # pylint: disable=protected-access
 
